@@ -14,6 +14,7 @@ is just a list of (x_i, x_j) evaluations), both `prefer_speed_over_memory` setti
   cacheDefaultOverlap / denseDefaultOverlap   mirror the two default-overlap expressions
 -/
 import Nitime.Props.C08
+import Nitime.Lemmas.CohBounds
 
 open Finset ComplexConjugate
 open Nitime.Coh Nitime.C08.Props
@@ -187,6 +188,54 @@ theorem cache_relphase_eq_dense_angle (b : Bool) (w xi xj : List ℝ) {Fs : ℝ}
   simp only [List.length_map, h1, gt_iff_lt, lt_self_iff_false, if_false, cachedConj_eq, cachedSlice_eq,
     c_arg, c_mul, sum_range_one]
   rw [Complex.arg_real_mul _ (cW_pos hW hFs step xi.length (l + t))]
+
+/-! ### phases with several windows -/
+
+/-- the analysed segment starting at `a`, as a record of its own -/
+def segOf (x : List ℝ) (N a : ℕ) : List ℝ := (x.drop a).take N
+
+theorem segOf_getD (x : List ℝ) (N a j : ℕ) (hj : j < N) : (segOf x N a).getD j 0 = x.getD (a + j) 0 := by
+  unfold segOf
+  simp [List.getD_eq_getElem?_getD, hj, List.getElem?_drop]
+
+theorem nSeg_segOf (x : List ℝ) (N a step : ℕ) : nSeg (segOf x N a).length N step = 1 := by
+  have h : (segOf x N a).length ≤ N := by unfold segOf; simp
+  unfold nSeg paddedLen
+  split_ifs <;> simp <;> omega
+
+/-- the spectrum of the s-th segment taken alone is the s-th cached slice -/
+theorem F_segOf (w x : List ℝ) (N step step' k s : ℕ) :
+    F w (segOf x N (s * step)) N step' k 0 = F w x N step k s := by
+  unfold F
+  rw [segFft_eq, segFft_eq]
+  refine sum_congr rfl fun j hj => ?_
+  rw [getK_map_ofReal, getK_map_ofReal, getK_map_ofReal, Nat.zero_mul, Nat.zero_add, segOf_getD _ _ _ _ (mem_range.mp hj)]
+
+/-- **cache_to_relative_phase with any number of windows** = the mean over the windows of the dense
+    single-window phase: window s contributes the angle of the dense cross-spectrum of the two s-th
+    segments analysed alone (this is what the docstring's "average of the angles calculated on individual
+    windows" means; for one window it is `cache_relphase_eq_dense_angle`) -/
+theorem cache_relphase_eq_mean_dense_angles (b : Bool) (w xi xj : List ℝ) {Fs : ℝ} (hFs : 0 < Fs)
+    (N step step' l t : ℕ) (hW : 0 < W w N) :
+    cacheRelPhase b (w.map (↑)) N step (xi.map (↑)) (xj.map (↑)) l t
+      = (∑ s ∈ range (nSeg xi.length N step),
+          ((Complex.arg (welchBin (w.map (↑)) (Fs : ℂ) N step'
+              ((segOf xi N (s * step)).map (↑)) ((segOf xj N (s * step)).map (↑)) (l + t)) : ℝ) : ℂ))
+        / (nSeg xi.length N step : ℂ) := by
+  unfold cacheRelPhase
+  simp only [List.length_map, cachedConj_eq, cachedSlice_eq, winMean_eq _ (nSeg_pos _ _ _), c_arg, c_mul]
+  congr 1
+  refine sum_congr rfl fun s _ => ?_
+  rw [welchBin_eq, nSeg_segOf, sum_range_one, Complex.arg_real_mul _ (cW_pos hW hFs step' _ (l + t)),
+    F_segOf, F_segOf]
+
+/-- **cache_to_phase**: the mean over the windows of the angle of each window's spectrum -/
+theorem cache_phase_eq_mean_segment_angles (w x : List ℝ) (N step l t : ℕ) :
+    cachePhase (w.map (↑)) N step (x.map (↑)) l t
+      = (∑ s ∈ range (nSeg x.length N step), ((Complex.arg (F w x N step (l + t) s) : ℝ) : ℂ))
+        / (nSeg x.length N step : ℂ) := by
+  unfold cachePhase
+  simp only [List.length_map, cachedSlice_eq, winMean_eq _ (nSeg_pos _ _ _), c_arg]
 
 /-! ### frequency vectors and defaults -/
 
